@@ -127,8 +127,9 @@ static void one_case(char* line) {
   char* bar = strchr(line, '|');
   if (!bar) { P("BADCASE"); return; }
   *bar = 0;
-  unhex(line, rbuf);
-  var s = new_raw(String, $S(rbuf));
+  var s;
+  if (line[0] == 'N') { rbuf[0] = 0; s = new_raw(String); }
+  else { unhex(line, rbuf); s = new_raw(String, $S(rbuf)); }
   P("new"); dump(s, "new");
   char* p = bar + 1; char* tok;
   char out[64], rout[64];
@@ -159,6 +160,7 @@ static void one_case(char* line) {
         case 'M': strcpy(rout, "true"); strcpy(out, mem(s, s) ? "true" : "false"); break;
         case 'K': strcpy(rout, "eq"); strcpy(out, sgn(cmp(s, s))); break;
         case 'E': strcpy(rout, "true"); strcpy(out, eq(s, s) ? "true" : "false"); break;
+        case 'y': { var t = assign(alloc_raw(String), s); del_raw(s); s = t; break; }
         case 'l': snprintf(rout, sizeof rout, "n%zu", strlen(rbuf)); snprintf(out, sizeof out, "n%zu", len(s)); break;
         case 'h': snprintf(rout, sizeof rout, "h%" PRIu64, hash_data(rbuf, strlen(rbuf))); snprintf(out, sizeof out, "h%" PRIu64, hash(s)); break;
         case 's': { char* c = c_str(s); size_t n = strlen(c);
